@@ -9,7 +9,7 @@ RULE = ("task DAGs x injected failing subsets (exit 1/2/255/259, death by SIGKIL
 
 def main(tier, n=None):
     plan = [("faults", 1400, 60000, None, 8), ("faults", 200, 8000, list(sched.schedsim.LINE_STRATEGIES), 7)]
-    rep, code = S.run(PROP, tier, "fault_enumeration", RULE, plan, ["c03_runs_with_faults", "c03_report_checks", "c03_stop_early_checks"], n)
+    rep, code = S.run(PROP, tier, "fault_enumeration", RULE, plan, ["c03_runs_with_faults", "c03_report_checks", "c03_stop_early_checks", "e1_runs"], n, e1=("faults", 60, 1500, 7))
     return code
 
 
